@@ -933,3 +933,53 @@ Proof.
   - destruct (n <=? i64_max); discriminate.
   - inversion Hb. subst. cbn [wf_json] in Hwf. lia.
 Qed.
+
+(** * the core string fields (context_id, event_type) *)
+Lemma iter_core_compact_id : forall n s, iter_core_compact n s = s.
+Proof. induction n as [|n IH]; intros s; cbn [iter_core_compact]; [reflexivity|]. apply IH. Qed.
+
+Lemma core_tier_text_id : forall l s, core_tier_text l s = s.
+Proof. intros [w [n|]] s; unfold core_tier_text; cbn [in_seg]; [apply iter_core_compact_id|reflexivity]. Qed.
+
+(** every layout returns the same cell for a core string field ... *)
+Theorem core_tiers_agree : forall l1 l2 s, returned_core l1 s = returned_core l2 s.
+Proof. intros. unfold returned_core. rewrite !core_tier_text_id. reflexivity. Qed.
+
+(** ... namely the stored text, unless to_json re-parses it *)
+Theorem core_roundtrip_outside_known : forall l s, utf8_reparsed s = false -> returned_core l s = JStr s.
+Proof. intros l s H. unfold returned_core. rewrite core_tier_text_id. apply json_of_utf8_plain, H. Qed.
+
+Theorem core_known_fails : forall l s, utf8_reparsed s = true -> json_eqb (returned_core l s) (JStr s) = false.
+Proof.
+  intros l s H. unfold returned_core. rewrite core_tier_text_id. unfold utf8_reparsed in H. unfold json_of_utf8.
+  destruct (parse_json s) as [[| | n | | | | |]|]; try discriminate; try reflexivity. rewrite H. reflexivity.
+Qed.
+
+(** the context ids "9999999999999999999" and "[1]" come back as a number / an array, in memory and flushed *)
+Example core_refuted :
+  returned_core L_mem (dec_of_Z 9999999999999999999) = JU64 9999999999999999999 /\
+  returned_core L_cmp (dec_of_Z 9999999999999999999) = JU64 9999999999999999999 /\
+  returned_core L_seg [91; 49; 93]%N = JArr [JU64 1].
+Proof. repeat split; vm_compute; reflexivity. Qed.
+
+(** FOR <ctx> selects exactly the events stored under that spelling: two contexts that differ only in
+    spelling ("0042" / "42", "+7" / "7", "-0" / "0") stay two contexts in every layout *)
+Theorem for_selects_exact : forall l q ctx, for_selects l q ctx = true <-> ctx = q.
+Proof.
+  intros l q ctx. unfold for_selects. rewrite core_tier_text_id. split.
+  - apply bytes_eqb_eq.
+  - intros ->. apply bytes_eqb_refl.
+Qed.
+
+(** The integer-first materialisation (EventSink; not on the QUERY/REPLAY path) is NOT the identity on core
+    fields: it rewrites exactly the texts that read as an i64 and are not its canonical decimal spelling. *)
+Theorem core_sink_characterised : forall s,
+  (parse_i64 s = None -> core_read_sink s = core_read s) /\
+  (forall z, parse_i64 s = Some z -> core_read_sink s = dec_of_Z z).
+Proof. intros s. unfold core_read_sink, core_read. split; [intros ->; reflexivity|intros z ->; reflexivity]. Qed.
+
+Example core_sink_differs :
+  core_read_sink [48; 48; 49; 50; 51]%N = [49; 50; 51]%N /\ core_read [48; 48; 49; 50; 51]%N = [48; 48; 49; 50; 51]%N /\
+  core_read_sink [43; 55]%N = [55]%N /\ core_read_sink [45; 48]%N = [48]%N /\
+  for_selects L_seg [52; 50]%N [48; 48; 52; 50]%N = false /\ for_selects L_seg [48; 48; 52; 50]%N [48; 48; 52; 50]%N = true.
+Proof. repeat split; vm_compute; reflexivity. Qed.
